@@ -8,9 +8,12 @@ Alphabet == {
   El("bogus", <<>>, FALSE), El("bogus", <<0>>, TRUE), El("", <<>>, FALSE),
   El("only_uid", <<>>, FALSE), El("exclude_uid", <<>>, FALSE),                   \* known names without any argument
   El("only", <<>>, FALSE), El("exclude_u", <<0>>, TRUE), El("only_t", <<>>, FALSE), \* unknown names that are prefixes of known ones
-  El("only_uidx", <<0>>, TRUE), El("ONLY_ROOT", <<>>, FALSE) }
+  El("only_uidx", <<0>>, TRUE), El("ONLY_ROOT", <<>>, FALSE),
+  El("exclude_spawns_of", <<U, V>>, TRUE),                                        \* a filter that tokenizes its own argument, inside a chain
+  El("unknown_name_of_120_bytes", <<0>>, TRUE) }                                  \* concretised as a 120-byte unknown name
 Small == { El("only_root", <<>>, FALSE), El("only_uid", <<U>>, TRUE), El("exclude_uid", <<0>>, TRUE), El("bogus", <<0>>, TRUE),
-           El("", <<>>, FALSE), El("exclude_uid", <<>>, FALSE), El("only", <<>>, FALSE) }
+           El("", <<>>, FALSE), El("exclude_uid", <<>>, FALSE), El("only", <<>>, FALSE), El("exclude_spawns_of", <<U, V>>, TRUE),
+           El("unknown_name_of_120_bytes", <<0>>, TRUE) }
 NoDefects == {}
 D1 == {"stop_at_unknown"}  D2 == {"arg_leak"}  D3 == {"prefix_match"}  D4 == {"first_only"}  D5 == {"empty_drops"}
 Dump == verdict \in {"PASS", "DROP"} => PrintT(<<"OUT", ToJson([chain |-> chain, ps |-> ps, pass |-> Decision(chain, ps)])>>)
